@@ -60,9 +60,8 @@ def gen_case(rng, d, kind):
                 msgs.append(nm)
             src += [" ret", '.section .far,"aw"', f".globl far_{nm}", f"far_{nm}: .quad 1", ".text"]
         elif kind == "duplicate":
-            for k in range(nerr):
-                sym = f"dup_{rng.choice('abc')}{rng.randrange(4)}"
-                src += [f".globl {sym}", f"{sym}:"]
+            for sym in sorted(rng.sample([f"dup_{a}{b}" for a in "abcdefgh" for b in range(4)], rng.randrange(2, 9))):
+                src += [f".globl {sym}", f"{sym}:", " nop"]
                 msgs.append(sym)
         elif kind == "symtab":
             if nerr:
